@@ -449,96 +449,126 @@ func rulePar12(c *Ctx) {
 		if len(slots) == 0 {
 			continue
 		}
-		loops := core.NaturalLoops(parent)
-		k := 0
-		for _, l := range loops {
-			// the loop ranges over a slot collection: its header/body reads xs[w] with w the loop's induction variable
-			var coll ssa.Value
-			for b := range l.Blocks {
-				for _, in := range b.Instrs {
-					var x ssa.Value
-					switch y := in.(type) {
-					case *ssa.IndexAddr:
-						x = y.X
-					case *ssa.Index:
-						x = y.X
-					default:
-						continue
-					}
-					for _, o := range core.Origins(x, true) {
-						if slots[o] {
-							// the index must be loop-carried in this very loop (phi in the header)
-							var idx ssa.Value
-							switch y := in.(type) {
-							case *ssa.IndexAddr:
-								idx = y.Index
-							case *ssa.Index:
-								idx = y.Index
-							}
-							if bo, ok := idx.(*ssa.BinOp); ok { // range loops index with φ+1
-								idx = bo.X
-							}
-							if ph, ok := idx.(*ssa.Phi); ok && ph.Block() == l.Header {
-								coll = o
-							}
-						}
-					}
-				}
-			}
-			if coll == nil {
+		// the slot collection is followed from the function that makes it into the helpers it is handed to
+		type item struct {
+			fn       *ssa.Function
+			coll     ssa.Value
+			fromLoop bool
+			depth    int
+		}
+		var work []item
+		for sv := range slots {
+			work = append(work, item{parent, sv, false, 0})
+		}
+		sort.Slice(work, func(i, j int) bool { return c.P.Pos(work[i].coll.Pos()) < c.P.Pos(work[j].coll.Pos()) })
+		visited := map[string]bool{}
+		for len(work) > 0 {
+			it := work[0]
+			work = work[1:]
+			vk := fmt.Sprintf("%p/%p/%v", it.fn, it.coll, it.fromLoop)
+			if visited[vk] || it.depth > 3 {
 				continue
 			}
-			// per-item decision: the loop over the slots is nested inside a loop over the items (a loop over the
-			// slots that is not nested concatenates or merges whole slots, which is the fold itself)
-			nested := false
-			for _, o := range loops {
-				if o != l && o.Blocks[l.Header] && len(o.Blocks) > len(l.Blocks) {
-					nested = true
-				}
-			}
-			if !nested {
-				continue
-			}
-			k++
-			n++
-			c.Touch(parent)
-			key := c.KeyAt(parent, fmt.Sprintf("loop #%d over the workers' result slots only folds", k))
-			bad := ""
-			// the loop body, plus the blocks of its `break` paths (left through a non-header exit edge, up to the
-			// point where they join other paths)
-			scan := map[*ssa.BasicBlock]bool{}
-			for b := range l.Blocks {
-				scan[b] = true
-			}
-			for _, e := range l.ExitEdges(false) {
-				for x := e[1]; x != nil && !scan[x] && len(x.Preds) == 1; {
-					scan[x] = true
-					if len(x.Succs) != 1 {
-						break
+			visited[vk] = true
+			isColl := func(x ssa.Value) bool {
+				for _, o := range core.Origins(x, true) {
+					if o == it.coll {
+						return true
 					}
-					x = x.Succs[0]
+				}
+				return false
+			}
+			loops := core.NaturalLoops(it.fn)
+			// hand-over to helpers
+			for _, call := range core.Calls(it.fn) {
+				g := call.Common().StaticCallee()
+				if g == nil || g.Blocks == nil || !c.P.InPkg(g, "lib/query", core.ControlPkg) {
+					continue
+				}
+				for i, a := range call.Common().Args {
+					if isColl(a) && i < len(g.Params) {
+						inLp := it.fromLoop || core.InnermostLoop(loops, call.Block()) != nil
+						work = append(work, item{g, g.Params[i], inLp, it.depth + 1})
+					}
 				}
 			}
-			for b := range scan {
-				for _, in := range b.Instrs {
-					switch y := in.(type) {
-					case *ssa.Call:
-						if bi, ok := y.Call.Value.(*ssa.Builtin); ok && bi.Name() == "append" {
-							bad = fmt.Sprintf("append at %s", c.Pos(in))
+			k := 0
+			for _, l := range loops {
+				// the loop ranges over the slot collection: it reads coll[w] with w the loop's induction variable
+				found := false
+				for b := range l.Blocks {
+					for _, in := range b.Instrs {
+						var x, idx ssa.Value
+						switch y := in.(type) {
+						case *ssa.IndexAddr:
+							x, idx = y.X, y.Index
+						case *ssa.Index:
+							x, idx = y.X, y.Index
+						default:
+							continue
 						}
-					case *ssa.Store:
-						if _, local := y.Addr.(*ssa.Alloc); !local {
-							if ia, ok := y.Addr.(*ssa.IndexAddr); ok {
-								_ = ia
+						if !isColl(x) {
+							continue
+						}
+						if bo, ok := idx.(*ssa.BinOp); ok { // range loops index with φ+1
+							idx = bo.X
+						}
+						if ph, ok := idx.(*ssa.Phi); ok && ph.Block() == l.Header {
+							found = true
+						}
+					}
+				}
+				if !found {
+					continue
+				}
+				// per-item decision: the loop over the slots is nested inside a loop over the items — in this function
+				// or in the caller that hands the slots over from inside a loop (a loop over the slots that is not
+				// nested concatenates or merges whole slots, which is the fold itself)
+				nested := it.fromLoop
+				for _, o := range loops {
+					if o != l && o.Blocks[l.Header] && len(o.Blocks) > len(l.Blocks) {
+						nested = true
+					}
+				}
+				if !nested {
+					continue
+				}
+				k++
+				n++
+				c.Touch(it.fn)
+				key := c.KeyAt(it.fn, fmt.Sprintf("loop #%d over the workers' result slots only folds", k))
+				bad := ""
+				scan := map[*ssa.BasicBlock]bool{}
+				for b := range l.Blocks {
+					scan[b] = true
+				}
+				for _, e := range l.ExitEdges(false) {
+					for x := e[1]; x != nil && !scan[x] && len(x.Preds) == 1; {
+						scan[x] = true
+						if len(x.Succs) != 1 {
+							break
+						}
+						x = x.Succs[0]
+					}
+				}
+				for b := range scan {
+					for _, in := range b.Instrs {
+						switch y := in.(type) {
+						case *ssa.Call:
+							if bi, ok := y.Call.Value.(*ssa.Builtin); ok && bi.Name() == "append" {
+								bad = fmt.Sprintf("append at %s", c.Pos(in))
 							}
-							bad = fmt.Sprintf("store at %s", c.Pos(in))
+						case *ssa.Store:
+							if _, local := y.Addr.(*ssa.Alloc); !local {
+								bad = fmt.Sprintf("store at %s", c.Pos(in))
+							}
+						case *ssa.MapUpdate:
+							bad = fmt.Sprintf("map update at %s", c.Pos(in))
 						}
-					case *ssa.MapUpdate:
-						bad = fmt.Sprintf("map update at %s", c.Pos(in))
 					}
 				}
+				c.Check(bad == "", key, c.Pos(l.Header.Instrs[0]), "only loop-carried accumulators are updated inside the loop", "an effect is taken inside the loop over the per-worker slots ("+bad+"): it happens once per worker whose slot satisfies the test, so the result depends on the number of goroutines the rows were split over")
 			}
-			c.Check(bad == "", key, c.Pos(l.Header.Instrs[0]), "only loop-carried accumulators are updated inside the loop", "an effect is taken inside the loop over the per-worker slots ("+bad+"): it happens once per worker whose slot satisfies the test, so the result depends on the number of goroutines the rows were split over")
 		}
 	}
 	if n == 0 {
